@@ -548,5 +548,57 @@ def model_frames(scn, mod):
     return frames, tks
 
 
+def drop_cb(scn, k):
+    """the scenario without callback k (ids re-numbered); None if k cannot be dropped"""
+    if scn["fwd"] and scn["fwd"]["cb"] == k:
+        return None
+    c = json.loads(json.dumps(scn))
+    cb = c["cbs"][k]
+    if cb["form"] == "twin":
+        # keep the other twin as an ordinary function / coroutine function
+        for o in c["cbs"]:
+            if o.get("twin_of") == k or cb.get("twin_of") == o["id"]:
+                if o["form"] == "twin":
+                    o["form"] = "func"
+                    o.pop("twin_of", None)
+    del c["cbs"][k]
+    remap = {}
+    for new, o in enumerate(c["cbs"]):
+        remap[o["id"]] = new
+    for o in c["cbs"]:
+        o["id"] = remap[o["id"]]
+        if "twin_of" in o:
+            if o["twin_of"] in remap:
+                o["twin_of"] = remap[o["twin_of"]]
+            else:
+                o.pop("twin_of")
+                o["form"] = "func"
+        if o["form"] in ("mname", "model", "func", "lambda", "deco", "twin"):
+            o["name"] = f"c{o['id']}"
+        elif o["form"] == "partial":
+            o["name"] = f"pp{o['id']}"
+        elif o["form"] == "prop":
+            o["name"] = f"pr{o['id']}"
+    if c["fwd"]:
+        c["fwd"]["cb"] = remap[c["fwd"]["cb"]]
+    te = c.get("expect_typeerror")
+    if te is not None:
+        if te == k:
+            return None
+        c["expect_typeerror"] = remap[te]
+    return c
+
+
+def check_consistent(scn):
+    """the scenario must still be one whose callbacks can all be bound (or exactly the expected one cannot)"""
+    te = scn.get("expect_typeerror")
+    for tag, ev, args, ukw, rows in expected_run(scn):
+        for cid, ph, off, outc, corner in rows:
+            if corner:
+                raise ValueError("corner")
+            if outc == "TypeError" and cid != te:
+                raise ValueError("unexpected legit TypeError")
+
+
 def scn_json(scn):
     return json.dumps(scn, sort_keys=True)
